@@ -94,7 +94,7 @@ func init() {
 			"Scoped exclusions: the saved snapshots reachable only through `backtrack` (LIFO argument, stated) and the shared reader. Does NOT decide which binding is the most recent one when a name is bound repeatedly, nor named-loop nesting." +
 			" Round 4: (R7) the restore used by BACKTRACK assigns every field of the state that matching writes, from the same field of the checkpoint; (R8) a loop record's bindings are indexed with that record's own iteration counter." +
 			" Round 5: (R9) the empty text matches with zero width; (R10) a variable reference is not compiled to a literal." +
-			" Round 6: (R11) a stored definition is read only where the lookup in the command's own scope has missed; (R12) MATCHVAR reads from every table INSERTVARIABLE writes to.",
+			" Round 6: (R11) a stored definition is read only where the lookup in the command's own scope has missed; (R12) MATCHVAR reads from every table INSERTVARIABLE writes to, and its lookup helper asks the environment before it answers a miss; (R13) an unbound back-reference backtracks.",
 		Assumptions: commonAssumptions,
 		Rules: []RuleFn{
 			{Name: "C02.R1", Run: func(c *Ctx) { ruleSnapshotIsolation(c, "C02.R1") }},
@@ -108,6 +108,7 @@ func init() {
 			{Name: "C02.R10", Run: func(c *Ctx) { ruleReferenceNotFolded(c, "C02.R10") }},
 			{Name: "C02.R11", Run: func(c *Ctx) { ruleScopeBeforeDefinitions(c, "C02.R11") }},
 			{Name: "C02.R12", Run: func(c *Ctx) { ruleBindingReaderCoversWriter(c, "C02.R12") }},
+			{Name: "C02.R13", Run: func(c *Ctx) { ruleUnboundReferenceFails(c, "C02.R13") }},
 		},
 	})
 	register(&Property{
@@ -425,7 +426,7 @@ func init() {
 		Explanation: "Equivalence with a regex engine is NOT decided (value-level; it is C01 plus this). Decided: the regex-specific translation tables and the numbering order - (R1) the quantifier table of parse_regexp_quantifier, extracted from the AstLoop literals and the character tests that control them (* + ? {m} {m,} {m,n}), and that the lazy marker applies to every quantifier; (R2) the atom table (^ $ . \\d \\D \\s \\S); (R3) a capturing group reads its number before its body is parsed (numbering by opening parenthesis)." +
 			" Round 4: (R6) the loop-stack protocol (same rule as C01.R5); (R7) no byte of a regexp literal is converted to a string as a code point; (R8) the scan discipline (same rule as C01.R3)." +
 			" Round 5: (R9) group numbering restarts per literal and every capturing group takes a number; (R10) the empty text matches with zero width; (R11) renumbering passes cover every program-counter field." +
-			" Round 6: (R12) checkpoints are isolated snapshots; (R13) every attempt starts from a fresh state; (R14) alternatives are tried in written order; (R15) the compiled program is read-only at run time; (R16) the copies of an unrolled loop body may each declare the body's captures.",
+			" Round 6: (R12) checkpoints are isolated snapshots; (R13) every attempt starts from a fresh state; (R14) alternatives are tried in written order; (R15) the compiled program is read-only at run time; (R16) the copies of an unrolled loop body may each declare the body's captures; (R17) an unbound back-reference fails.",
 		Assumptions: commonAssumptions,
 		Rules: []RuleFn{
 			{Name: "C14.R1", Run: func(c *Ctx) { ruleRegexQuantifiers(c, "C14.R1") }},
@@ -444,6 +445,7 @@ func init() {
 			{Name: "C14.R14", Run: func(c *Ctx) { ruleAlternativeOrder(c, "C14.R14") }},
 			{Name: "C14.R15", Run: func(c *Ctx) { ruleProgramReadOnly(c, "C14.R15") }},
 			{Name: "C14.R16", Run: func(c *Ctx) { ruleUnrolledBodiesMayDeclare(c, "C14.R16") }},
+			{Name: "C14.R17", Run: func(c *Ctx) { ruleUnboundReferenceFails(c, "C14.R17") }},
 		},
 	})
 	register(&Property{
@@ -452,7 +454,7 @@ func init() {
 			"A raw decision means: inserting a blank or a comment at that gap changes the branch taken. Does NOT decide the lexer's comment state machine nor equality of the resulting syntax trees." +
 			" Round 4: (R6) with the lexer state fixed to a comment state only arms reached because of the state (or end-of-input arms) stay reachable." +
 			" Round 5: (R7) a newline ends a line comment in each of its states; (R8) the first character of the block comment's end marker restarts the recognition from every recognition state (state and character fixed)." +
-			" Round 6: (R9) nothing Compile writes at package level survives into the next compilation unseen; (R10) the lexer's look-ahead is a Peek of a small constant and never depends on what is buffered.",
+			" Round 6: (R9) nothing Compile writes at package level survives into the next compilation unseen; (R10) the lexer's look-ahead is a Peek of a small constant and never depends on what is buffered; (R11) the command parser answers the EOF token without an error.",
 		Assumptions: commonAssumptions,
 		Rules: []RuleFn{
 			{Name: "C15.R1", Run: func(c *Ctx) {
@@ -470,6 +472,7 @@ func init() {
 			{Name: "C15.R8", Run: func(c *Ctx) { ruleBlockCommentMarkerRestarts(c, "C15.R8") }},
 			{Name: "C15.R9", Run: func(c *Ctx) { ruleGlobalsReinit(c, "C15.R9") }},
 			{Name: "C15.R10", Run: func(c *Ctx) { ruleLexerLookaheadFixed(c, "C15.R10") }},
+			{Name: "C15.R11", Run: func(c *Ctx) { ruleEOFIsNotACommandError(c, "C15.R11") }},
 		},
 	})
 	register(&Property{
